@@ -79,14 +79,40 @@ class Seams:
         self.convert_mod._GLOBAL_HANDLERS[:] = self.global_handlers
 
     def make_lru(self, k):
-        """The configuration the 'TODO support maxsize' comment announces: same key, bounded."""
-        util = sys.modules['pane.util']
-        key_f = getattr(self.orig_mc, 'key_f', None) or getattr(self.convert_mod, '_make_converter_key_f', None)
-        KeyCache = getattr(util, 'KeyCache', None)
-        if key_f is None or KeyCache is None:
-            return None
+        """
+        The shipped memo re-created with a small bound (the configuration the 'TODO support maxsize' comment
+        announces).  It is built by calling the memo's own class with the shipped instance's constructor
+        arguments - every one of them, read back from the instance - and only `maxsize` changed, so whatever
+        the implementation needs to be correct (key function, pinning function, ...) is carried over.  If any
+        constructor argument cannot be recovered the LRU configuration is reported unavailable rather than
+        being built from a guess.
+        """
         import functools
-        kc = KeyCache(self.undecorated, key_f, maxsize=k)
+        import inspect
+        mc = self.orig_mc
+        cls = type(mc)
+        if cls.__module__ in ('functools', 'builtins'):
+            return None
+        try:
+            sig = inspect.signature(cls.__init__)
+        except (TypeError, ValueError):
+            return None
+        kwargs = {}
+        for name, prm in list(sig.parameters.items())[1:]:
+            if prm.kind in (prm.VAR_POSITIONAL, prm.VAR_KEYWORD):
+                return None
+            if name == 'maxsize':
+                kwargs[name] = k
+                continue
+            for cand in (name, 'inner_' + name, '_' + name):
+                if cand in vars(mc):
+                    kwargs[name] = getattr(mc, cand)
+                    break
+            else:
+                return None
+        if 'maxsize' not in kwargs:
+            return None
+        kc = cls(**kwargs)
         functools.update_wrapper(kc, self.undecorated)
         return kc
 
@@ -1536,13 +1562,23 @@ def execute_threads(plan, want_trace=False) -> dict:
                 except Exception:
                     count('setup_failed')
             if knobs['maxsize'] is not None:
-                lru = s.make_lru(knobs['maxsize'])
+                util.__dict__['RLock'] = sched.make_lock     # locks created while the memo is re-created are simulated
+                util.__dict__['Lock'] = sched.make_lock
+                try:
+                    lru = s.make_lru(knobs['maxsize'])
+                finally:
+                    for n, v in saved_locks.items():
+                        if v is None:
+                            util.__dict__.pop(n, None)
+                        else:
+                            util.__dict__[n] = v
                 if lru is None:
                     count('lru_mode_unavailable')
+                    kc = s.orig_mc
+                    swap_locks(kc)
                 else:
-                    kc = make_kc(s.undecorated, lru.key_f, knobs['maxsize'])
-                    import functools
-                    functools.update_wrapper(kc, s.undecorated)
+                    kc = lru
+                    swap_locks(kc)
                     s.bind_mc(kc)
             else:
                 kc = s.orig_mc
